@@ -18,6 +18,9 @@ func init() { core.Register(prop{}) }
 func (prop) ID() string { return "C03" }
 
 func (prop) Run(c core.Case) core.Outcome {
+	if c.Op == "big" {
+		return runBig(c)
+	}
 	in, ops := ue.Unpack(c)
 	e := ue.Evaluate(in, ops)
 	out := core.Outcome{Class: e.Class(), Key: e.Key()}
@@ -28,7 +31,7 @@ func (prop) Run(c core.Case) core.Outcome {
 
 func (prop) Gen(r *rand.Rand, tier string) []core.Case {
 	if tier == "thorough" {
-		return append(ue.ExhaustiveCases(3), ue.RandomCases(r, 20000, false)...)
+		return append(append(append(ue.ExhaustiveCases(3), ue.WrapperCases()...), bigCases()...), ue.RandomCases(r, 20000, false)...)
 	}
-	return append(ue.ExhaustiveCases(1), ue.RandomCases(r, 400, false)...)
+	return append(append(append(ue.ExhaustiveCases(1), ue.WrapperCases()...), bigCases()...), ue.RandomCases(r, 400, false)...)
 }
